@@ -20,7 +20,7 @@ var floatSpellings = []string{"0.1", "-0.0", "1e308", "1E-7", "12345678901234567
 	"9007199254740993", "1.7976931348623157e308", "5e-324", "1e-400", "2.5", "-1.25e+2", "100", "0.1e1", "4.9406564584124654e-324", "1e22", "1e23"}
 var badFloatSpellings = []string{`"1.5"`, "true", "[]", `{"a":1}`}
 var stringPool = []string{"", "plain", "with space", "ünï©ödé", "emoji 😀 and 𝄞", "quote\" back\\slash /slash", "line\nbreak\ttab\r", "ctl \u0001\u001f",
-	"   separators", "null", "{\"json\":1}", "a&b=c+d%20e#f;g", "日本語テキスト", "é combining", "﻿bom", "<script>alert(1)</script>", "trailing space "}
+	"   separators", "null", "{\"json\":1}", "a&b=c+d%20e#f;g", "日本語テキスト", "é combining", "\ufeffbom", "<script>alert(1)</script>", "trailing space "}
 var colorSpellings = []string{`"RED"`, `"GREEN"`, `"BLUE"`}
 var badColorSpellings = []string{`"PURPLE"`, `"red"`, "1", "true", "[\"RED\",\"RED\"]"}
 
@@ -252,8 +252,7 @@ func (q QSpec) render() string {
 				root = "Mutation"
 			}
 			fname := fmt.Sprintf("F%d", oi)
-			b.WriteString(head + "{ ...", )
-			b.WriteString(fname + " }" + nl)
+			b.WriteString(head + "{ ..." + fname + " }" + nl)
 			b.WriteString("fragment " + fname + " on " + root + " {" + nl + body + nl + "}" + nl)
 		} else {
 			b.WriteString(head + "{" + nl + body + nl + "}" + nl)
@@ -553,7 +552,7 @@ func genOp(r *hx.Rand) (QSpec, Op) {
 		op.Frag = r.Chance(1, 8)
 		q.Ops = append(q.Ops, op)
 	}
-	q.Prefix = hx.Pick(r, []string{"", "", "", "# comment ü\n", "\n\n  ", "﻿", "# c1\r\n# c2\r\n"})
+	q.Prefix = hx.Pick(r, []string{"", "", "", "# comment ü\n", "\n\n  ", "\ufeff", "# c1\r\n# c2\r\n"})
 	q.NL = hx.Pick(r, []string{"\n", "\n", "\r\n", " ", ", "})
 
 	// variable values
@@ -669,7 +668,7 @@ func handOps() []Op {
 		{Query: "query Q { ...F } fragment F on Query { ...F }"},
 		{Query: "{ ünï }"},
 		{Query: "{ echoString(s: \"ünï 😀\") }"},
-		{Query: "﻿{ __typename }"},
+		{Query: "\ufeff{ __typename }"},
 		{Query: "{\r\n  nope\r\n}"},
 		{Query: "query Q { __typename }", OpName: "Q", Vars: sp(`{"unused": [1, 2, 3]}`)},
 	}
